@@ -1,0 +1,103 @@
+//go:build verif
+
+// Contracts for package state, checked by /verif/govc (comment-only; see /verif/DESIGN.md).
+package state
+
+// ---------------------------------------------------------------- C08: the journal
+// Every mutator journals exactly the inverse of what it overwrites; every journal entry's revert puts
+// exactly that value back.
+
+// The live (cached, not deleted) object of an address.
+//@ spec func liveObj(s *StateDB, a common.Address) *stateObject = ite(has(s.stateObjects, a) && s.stateObjects[a] != nil && !s.stateObjects[a].deleted, s.stateObjects[a], nil)
+
+// getStateObject may load the account from the snapshot/trie and cache it (trie access is outside the
+// subset): afterwards its result is the live object; an object that was live stays the same object.
+//@ trusted func (s *StateDB) getStateObject(addr common.Address) (r *stateObject)
+//@   requires s != nil
+//@   modifies s.stateObjects[_]
+//@   ensures r == liveObj(s, addr)
+//@   ensures old(liveObj(s, addr)) != nil ==> r == old(liveObj(s, addr))
+//@   ensures forall a common.Address :: a != addr ==> has(s.stateObjects, a) == old(has(s.stateObjects, a)) && s.stateObjects[a] == old(s.stateObjects[a])
+
+//@ trusted func (e journalEntry) dirtied() (r *common.Address)
+
+//@ func (j *journal) append(entry journalEntry)
+//@   for C08
+//@   requires j != nil && j.dirties != nil
+//@   modifies j.entries, j.dirties[_], []journalEntry
+//@   ensures [appended] len(j.entries) == old(len(j.entries)) + 1 && j.entries[old(len(j.entries))] == entry
+//@   ensures [prefixKept] forall i int :: 0 <= i && i < old(len(j.entries)) ==> j.entries[i] == old(j.entries[i])
+
+//@ func (j *journal) length() (r int)
+//@   for C08
+//@   requires j != nil
+//@   ensures r == len(j.entries)
+
+// ---- setters journal the old value
+//@ func (s *stateObject) SetBalance(amount *big.Int)
+//@   for C08 C09
+//@   requires s != nil && s.db != nil && s.db.journal != nil && s.db.journal.dirties != nil && s.data.Balance != nil
+//@   modifies s.data.Balance, s.db.journal.entries, s.db.journal.dirties[_], []journalEntry
+//@   ensures [valueSet] s.data.Balance == amount
+//@   ensures [oneEntry] len(s.db.journal.entries) == old(len(s.db.journal.entries)) + 1
+//@   ensures [journalsBalanceChange] dyntype(s.db.journal.entries[old(len(s.db.journal.entries))]) == typeid(balanceChange) && unbox(s.db.journal.entries[old(len(s.db.journal.entries))], balanceChange).prev != nil
+//@   ensures [journalsOldBalance] unbox(s.db.journal.entries[old(len(s.db.journal.entries))], balanceChange).prev.v == old(s.data.Balance.v)
+//@   ensures [journalsACopy] unbox(s.db.journal.entries[old(len(s.db.journal.entries))], balanceChange).prev != amount && unbox(s.db.journal.entries[old(len(s.db.journal.entries))], balanceChange).prev != old(s.data.Balance)
+//@   ensures [journalsAccount] *unbox(s.db.journal.entries[old(len(s.db.journal.entries))], balanceChange).account == s.address
+
+//@ func (s *stateObject) SetNonce(nonce uint64)
+//@   for C08 C09
+//@   requires s != nil && s.db != nil && s.db.journal != nil && s.db.journal.dirties != nil
+//@   modifies s.data.Nonce, s.db.journal.entries, s.db.journal.dirties[_], []journalEntry
+//@   ensures [valueSet] s.data.Nonce == nonce
+//@   ensures [oneEntry] len(s.db.journal.entries) == old(len(s.db.journal.entries)) + 1
+//@   ensures [journalsOldNonce] dyntype(s.db.journal.entries[old(len(s.db.journal.entries))]) == typeid(nonceChange) && unbox(s.db.journal.entries[old(len(s.db.journal.entries))], nonceChange).prev == old(s.data.Nonce)
+//@   ensures [journalsAccount] *unbox(s.db.journal.entries[old(len(s.db.journal.entries))], nonceChange).account == s.address
+
+//@ func (s *StateDB) AddRefund(gas uint64)
+//@   for C08
+//@   requires s != nil && s.journal != nil && s.journal.dirties != nil
+//@   modifies s.refund, s.journal.entries, s.journal.dirties[_], []journalEntry
+//@   ensures [valueSet] s.refund == toUint64(old(s.refund) + gas)
+//@   ensures [journalsOldRefund] len(s.journal.entries) == old(len(s.journal.entries)) + 1 && dyntype(s.journal.entries[old(len(s.journal.entries))]) == typeid(refundChange) && unbox(s.journal.entries[old(len(s.journal.entries))], refundChange).prev == old(s.refund)
+
+// ---- revert puts the journalled value back, and only that
+//@ func (ch balanceChange) revert(s *StateDB)
+//@   for C08 C09
+//@   requires s != nil && ch.account != nil
+//@   modifies s.stateObjects[_], stateObject.data
+//@   ensures [restored] liveObj(s, *ch.account) != nil ==> liveObj(s, *ch.account).data.Balance == ch.prev
+
+//@ func (ch nonceChange) revert(s *StateDB)
+//@   for C08 C09
+//@   requires s != nil && ch.account != nil
+//@   modifies s.stateObjects[_], stateObject.data
+//@   ensures [restored] liveObj(s, *ch.account) != nil ==> liveObj(s, *ch.account).data.Nonce == ch.prev
+
+//@ func (ch suicideChange) revert(s *StateDB)
+//@   for C08 C09
+//@   requires s != nil && ch.account != nil
+//@   modifies s.stateObjects[_], stateObject.data, stateObject.suicided
+//@   ensures [markRestored] liveObj(s, *ch.account) != nil ==> liveObj(s, *ch.account).suicided == ch.prev
+//@   ensures [balanceRestored] liveObj(s, *ch.account) != nil ==> liveObj(s, *ch.account).data.Balance == ch.prevbalance
+
+//@ func (ch refundChange) revert(s *StateDB)
+//@   for C08
+//@   requires s != nil
+//@   modifies s.refund
+//@   ensures [restored] s.refund == ch.prev
+
+//@ func (ch createObjectChange) revert(s *StateDB)
+//@   for C08
+//@   requires s != nil && ch.account != nil
+//@   modifies s.stateObjects[_], s.stateObjectsDirty[_]
+//@   ensures [removed] !has(s.stateObjects, *ch.account) && !has(s.stateObjectsDirty, *ch.account)
+//@   ensures [othersKept] forall a common.Address :: a != *ch.account ==> has(s.stateObjects, a) == old(has(s.stateObjects, a)) && s.stateObjects[a] == old(s.stateObjects[a])
+
+//@ func (ch resetObjectChange) revert(s *StateDB)
+//@   for C08
+//@   requires s != nil && ch.prev != nil && s.stateObjects != nil
+//@   modifies s.stateObjects[_], s.stateObjectsDestruct[_], s.snapAccounts[_], s.snapStorage[_]
+//@   ensures [objectRestored] has(s.stateObjects, ch.prev.address) && s.stateObjects[ch.prev.address] == ch.prev
+//@   ensures [destructMarkCleared] !ch.prevdestruct ==> !has(s.stateObjectsDestruct, ch.prev.address)
+//@   ensures [destructMarkKept] ch.prevdestruct ==> has(s.stateObjectsDestruct, ch.prev.address) == old(has(s.stateObjectsDestruct, ch.prev.address))
